@@ -138,16 +138,16 @@ class Check:
                 # a second (soft) clause was met earlier on the same trace: report the one this property owns
                 def owned(cl):
                     return (self.prop in clause_props(cl)) if own is None else (any(cl.startswith(o) for o in own) or self.prop in ALSO.get(cl, ()))
-                altline = None
-                if "@" in v[3]:
-                    v = (v[0], v[1], v[2], v[3].split("@")[0], int(v[3].split("@")[1]))
-                    altline = v[4]
-                alts = v[3].split("|")
-                mine = [a for a in alts if owned(a)]
+                pairs = []
+                for a in v[3].split("|"):
+                    nm, _, at = a.partition("@")
+                    pairs.append((nm, int(at) if at.lstrip("-").isdigit() else None))
+                alts = [nm for nm, _ in pairs]
+                mine = [(nm, at) for nm, at in pairs if owned(nm)]
                 if not owned(clause) and mine:
-                    clause = mine[0]
-                    if altline is not None:
-                        line = altline
+                    clause = mine[0][0]
+                    if mine[0][1] is not None:
+                        line = mine[0][1]
                 for a in alts:
                     if not owned(a):
                         sec = self.notes.setdefault("secondary_clauses_not_owned_by_this_property", {})
